@@ -12,6 +12,7 @@
 //	L ("long")    failure detection is active (library default 40 s, or 10 s / 5 s);
 //	              the quiet phase lasts 8 x (timeout + detection period) and the
 //	              clauses are judged over its second half.
+//
 //go:debug randseednop=0
 package c18
 
@@ -134,6 +135,9 @@ func genCase(t *rapid.T, regime string) Case {
 			switch f.Kind {
 			case "crash", "restart", "leave":
 				f.Node = rapid.SampledFrom(nonSeeds).Draw(t, "victim")
+				if f.Kind == "restart" {
+					f.NewAddr = rapid.IntRange(0, 3).Draw(t, "newAddr") == 0
+				}
 			case "partition":
 				for i := 0; i < n; i++ {
 					if rapid.Bool().Draw(t, "side") {
@@ -308,10 +312,11 @@ func judge(c Case, r *csim.Result) (vs []verdict, nontrivial bool, labels []stri
 				}
 			}
 		}
-		wantLeader := cfg.Nodes[runIdx[0]].Addr
+		wantLeader := ""
 		for _, x := range runIdx {
-			if a := self(final, x); a != nil && a.Addr < wantLeader {
-				wantLeader = a.Addr
+			cur := r.Addrs[x][len(r.Addrs[x])-1]
+			if wantLeader == "" || cur < wantLeader {
+				wantLeader = cur
 			}
 		}
 		for _, y := range runIdx {
@@ -332,7 +337,7 @@ func judge(c Case, r *csim.Result) (vs []verdict, nontrivial bool, labels []stri
 				believers = append(believers, y)
 			}
 		}
-		if len(believers) != 1 || cfg.Nodes[believers[0]].Addr != wantLeader {
+		if len(believers) != 1 || r.Addrs[believers[0]][len(r.Addrs[believers[0]])-1] != wantLeader {
 			add("C18/S|not-exactly-one-leader", "the nodes whose last ClusterLeaderChangedEvent says IAmLeader are %v; expected exactly the node at %s; %s", believers, wantLeader, fmtSample(final))
 		}
 		lateFrom := quietStart + cfg.QuietMs*2/3
@@ -375,7 +380,9 @@ func judge(c Case, r *csim.Result) (vs []verdict, nontrivial bool, labels []stri
 				for _, e := range r.Events {
 					if e.Node == y && e.Inc == incOf(r, y) && e.Kind == "members" && e.AtMs >= at {
 						for _, a := range e.Removed {
-							removedEver = removedEver || a == cfg.Nodes[d].Addr
+							for _, used := range r.Addrs[d] {
+								removedEver = removedEver || a == used
+							}
 						}
 					}
 				}
@@ -435,6 +442,12 @@ func judge(c Case, r *csim.Result) (vs []verdict, nontrivial bool, labels []stri
 	}
 	if len(restarted) > 0 {
 		labels = append(labels, "restarted-node-running")
+	}
+	for _, a := range r.Addrs {
+		if len(a) > 1 {
+			labels = append(labels, "restarted-on-a-new-address")
+			break
+		}
 	}
 	if len(died) > 0 {
 		labels = append(labels, "node-stays-down")
